@@ -11,6 +11,7 @@ import OciModel.Driver.Select
 import OciModel.Driver.Sub
 import OciModel.Driver.WrapRO
 import OciModel.Driver.AuthFile
+import OciModel.Driver.Conc
 
 structure DState where
   scopes : OciModel.Driver.Scope.Regs := []
@@ -30,6 +31,7 @@ def step (st : DState) (line : String) : DState × String :=
     let (m, out) := OciModel.Driver.Mem.drive st.mem rest
     ({ st with mem := m }, out)
   | "srv" :: _ => (st, "skip")
+  | "conc" :: rest => (st, OciModel.Driver.Conc.drive rest)
   | "authfile" :: rest =>
     let (a, out) := OciModel.Driver.AuthFile.drive st.authfile rest
     ({ st with authfile := a }, out)
